@@ -19,28 +19,48 @@ RULE = ('seeded blob histories at the storage level and through DB/Connection on
         'transaction fails/aborts after storeBlob; distinct by hash of the case')
 
 
+CASE_TIMEOUT = 90          # seconds of wall time for one case (a blocked step becomes a verdict with its input)
+
+
+class CaseTimeout(BaseException):
+    pass
+
+
+def run_guarded(case, root):
+    """run one case; a case that blocks (lock never released, endless loop) is cut off and reported"""
+    import shutil
+    import signal
+    mod = c13_st if case['level'] == 'st' else c13_db
+
+    def on_alarm(signum, frame):
+        raise CaseTimeout()
+    old = signal.signal(signal.SIGALRM, on_alarm)
+    signal.setitimer(signal.ITIMER_REAL, CASE_TIMEOUT, 20)      # again every 20 s while cleaning up
+    try:
+        try:
+            return mod.run_case(case, root)
+        except CaseTimeout:
+            return dict(lines=[], real=[], nontrivial=False, stats={'case-timeout': 1}, tie=[],
+                        problems=[('C13:blocked', 'the case did not finish within %d s (a step blocks or loops)'
+                                   % CASE_TIMEOUT)])
+    finally:
+        signal.setitimer(signal.ITIMER_REAL, 0)
+        signal.signal(signal.SIGALRM, old)
+        shutil.rmtree(root, ignore_errors=True)
+
+
 def run_real(case, ck, n=[0]):
     n[0] += 1
     root = os.path.join(ck.tmp, 'case%d' % n[0])
     os.makedirs(root)
-    mod = c13_st if case['level'] == 'st' else c13_db
-    try:
-        return mod.run_case(case, root)
-    finally:
-        import shutil
-        shutil.rmtree(root, ignore_errors=True)
+    return run_guarded(case, root)
 
 
 def _worker(arg):
     i, case, tmp = arg
-    import shutil
     root = os.path.join(tmp, 'w%d' % i)
     os.makedirs(root)
-    mod = c13_st if case['level'] == 'st' else c13_db
-    try:
-        return mod.run_case(case, root)
-    finally:
-        shutil.rmtree(root, ignore_errors=True)
+    return run_guarded(case, root)
 
 
 def run_all(cases, ck):
@@ -206,7 +226,15 @@ def main(argv=None):
         'that); the blob side is checked against it',
         'protocol discipline of Connection/transaction: an oid is stored at most once per transaction, nothing is '
         'stored after the vote, a transaction in which a call raised is aborted',
-        'os.rename atomic; BlobFile opens observed by wrapping BlobFile.__init__, other raw I/O by harness/vfs.py'])
+        'os.rename atomic; BlobFile opens observed by wrapping BlobFile.__init__, other raw I/O by harness/vfs.py',
+        'ORACLE ONLY (no model counterpart; judged by the ledger / API expectations alone): raw-fault commits, commits '
+        'with EXDEV renames (copy fall-back of rename_or_copy_blob), the second database of a multi-database group, '
+        'the second blob storage of the process, DemoStorage layers over the storage (first read, push/pop), '
+        'copy into a storage with the other blob-directory layout, Blob API refusals (several readers / one writer, '
+        "committed(), open('c'), subclassing), exportFile/importFile (the imported blob's bytes), consumeFile across "
+        'file systems; construction variants (layout marker, ZODB.config text, DB options, oid base, hexstorage, '
+        'close + reopen) run the SAME model lines as the plain FileStorage / wrapper',
+        'per-case wall-clock limit %d s: a blocked case is reported as C13:blocked with its input' % CASE_TIMEOUT])
 
 
 if __name__ == '__main__':
